@@ -9,6 +9,9 @@
     it is never longer than declared.
   * `func_exports_visible`: a loop `for (; e->func != NULL; e++)` (the WASI runtime's search for `wasi_thread_start`) sees exactly those
     rows; `func_export_found`: every function export is among them.
+  * `memory_export_exact`: a memory accessor `<module>_<name>` returns the instance's memory of the EXPORT's index
+    (`Gen.FuncExports.memoryExportArg`, regenerated from wasmCWriteMemoryExport); the embedder reads every exported memory through its
+    accessor (object identity with the instance's memory of that index, pages, bytes) — directed modules with several memories.
   Tied to the real output on every run: the embedder of tools/harness/e2e.py reads instance.common.funcExports of every instance
   (rows, names, terminator) and makes every other call of its script through a by-name lookup in it; `funcexports-text` compares the
   declared size and the rows of the emitted array with the model.
@@ -46,6 +49,11 @@ theorem func_export_found (es : List Export) (t : List (Option Row)) (h : table 
     (hf : e.kind = Kind.func) : (e.index, e.name) ∈ visible t := by
   rw [func_exports_visible es t h, List.mem_map]
   exact ⟨e, List.mem_filter.mpr ⟨he, by simp [isFunc, hf]⟩, rfl⟩
+
+/-- the `<module>_<name>` accessor of a MEMORY export returns the memory of the export's index — also for a module with several memories
+    (imported + own, exports listed in any order) — never another one -/
+theorem memory_export_exact (exportIndex : Nat) : memoryExportTarget exportIndex = exportIndex := by
+  simp [memoryExportTarget, memoryExportArg]
 
 /-! ### non-vacuity: `[memory, first, second, third]`, the order clang / wasm-ld emit -/
 example : table [⟨.memory, 0, [109]⟩, ⟨.func, 3, [102]⟩, ⟨.func, 4, [115]⟩, ⟨.global, 0, [103]⟩, ⟨.func, 5, [116]⟩] =
